@@ -334,12 +334,12 @@ impl NodeRecordStore {
             timestamp: self.timestamp,
         };
 
-        spawn(async move {
-            if let Ok(mut file) = fs::File::create(file_path) {
-                let mut serialiser = rmp_serde::encode::Serializer::new(&mut file);
-                let _ = historic_quoting_metrics.serialize(&mut serialiser);
-            }
-        });
+        // Written in place, not in a detached task: two tasks spawned for two payments in a row are
+        // not ordered, and the older count could be the one left on disk for the next restart.
+        if let Ok(mut file) = fs::File::create(file_path) {
+            let mut serialiser = rmp_serde::encode::Serializer::new(&mut file);
+            let _ = historic_quoting_metrics.serialize(&mut serialiser);
+        }
     }
 
     /// Creates a new `DiskBackedStore` with the given configuration.
